@@ -25,7 +25,8 @@ type linAcc struct {
 func TestC17(t *testing.T) {
 	st := StatsFor("C17")
 	rapid.Check(t, func(t *rapid.T) {
-		v := NewVestWorld([]VType{{Name: "vt0", Free18: "0", LockupNs: 0, VestNs: 100 * dayNs}, {Name: "vt1", Free18: "250000000000000000", LockupNs: dayNs, VestNs: 30 * dayNs}})
+		v := NewVestWorld([]VType{{Name: "vt0", Free18: "0", LockupNs: 0, VestNs: 100 * dayNs}, {Name: "vt1", Free18: "250000000000000000", LockupNs: dayNs, VestNs: 30 * dayNs},
+			{Name: "vt2", Free18: "0", LockupNs: 0, VestNs: 0}}) // (vt2: no lockup, no vesting period - an account sent from such a pool starts and ends at the block of the send)
 		v.Tx = DrawTxMode(t)
 		k := v.App.CfevestingKeeper
 		nowS := nsTime(v.NowNs).Unix()
@@ -70,7 +71,7 @@ func TestC17(t *testing.T) {
 				g := rapid.Bool().Draw(t, fmt.Sprintf("o%d_p%d_genesis", oi, i))
 				amt := sdk.NewInt(int64(rapid.IntRange(1000, 1_000_000).Draw(t, fmt.Sprintf("o%d_p%d_amt", oi, i))))
 				name := fmt.Sprintf("pool%d", i)
-				avp.VestingPools = append(avp.VestingPools, &vestingtypes.VestingPool{Name: name, VestingType: []string{"vt0", "vt1"}[i%2],
+				avp.VestingPools = append(avp.VestingPools, &vestingtypes.VestingPool{Name: name, VestingType: []string{"vt0", "vt1", "vt0", "vt1", "vt0", "vt2"}[(i+oi*3)%6],
 					LockStart: nsTime(v.NowNs), LockEnd: nsTime(v.NowNs).Add(time.Duration(yearNs)), InitiallyLocked: amt, Withdrawn: sdk.ZeroInt(), Sent: sdk.ZeroInt(), GenesisPool: g})
 				pools = append(pools, poolRef{o, name, g})
 				total = total.Add(amt)
@@ -346,7 +347,13 @@ func TestC17(t *testing.T) {
 				note("undelegate %s ok=%v", a, res.OK())
 			},
 			"advance": func(t *rapid.T) {
-				v.Advance([]int64{secNs, 3600 * secNs, dayNs, 10 * dayNs, 100 * dayNs}[rapid.IntRange(0, 4).Draw(t, "dt")])
+				if k := rapid.IntRange(0, 24).Draw(t, "dt"); k < 23 {
+					v.Advance([]int64{secNs, 3600 * secNs, dayNs, 10 * dayNs, 100 * dayNs}[k%5])
+				} else if poolLockEnd := T0.UnixNano() + secNs + yearNs; v.NowNs < poolLockEnd {
+					// ... or to the very block in which the pools' lock ends (an account sent from a pool without restart
+					// starts and ends at that instant)
+					v.SetNow(poolLockEnd - int64(k-23)*secNs)
+				}
 				note("advance to %d", v.NowNs)
 			},
 			"unbondings_complete": func(t *rapid.T) {
